@@ -81,8 +81,8 @@ def build_test(pkg, out, race=False, overlay=False):
     return True
 
 
-def build_cmd(pkgpath, out, race=False, overlay=False):
-    cmd = ["go", "build", "-tags", "verif", "-o", out]
+def build_cmd(pkgpath, out, race=False, overlay=False, tags="verif"):
+    cmd = ["go", "build", "-tags", tags, "-o", out]
     if race:
         cmd.append("-race")
     if overlay:
@@ -332,6 +332,14 @@ def _run_check(prop, tier, spec, wd, t0):
                 print("INCONCLUSIVE property=%s harness build failed" % prop)
                 return 2
             built[key] = out
+        if leg.get("vworker"):
+            vw = os.path.join(wd, "vworker")
+            if not os.path.exists(vw):
+                if not build_cmd("./cmd/vworker", vw, overlay=True, tags="verif verifov"):
+                    print("INCONCLUSIVE property=%s harness build failed (vworker)" % prop)
+                    return 2
+            leg.setdefault("env", {})
+            leg["env"] = dict(leg["env"], VERIF_VWORKER=vw)
         if kind == "rapid":
             results += run_rapid_leg(prop, i, leg, wd, built[key])
         elif kind == "fuzz":
@@ -486,6 +494,12 @@ def run_replay(prop, path):
             return 2
         od = os.path.join(wd, "out")
         os.makedirs(od)
+        if leg.get("vworker"):
+            vw = os.path.join(wd, "vworker")
+            if not build_cmd("./cmd/vworker", vw, overlay=True, tags="verif verifov"):
+                return 2
+            leg = dict(leg)
+            leg["env"] = dict(leg.get("env", {}), VERIF_VWORKER=vw)
         env = go_env({"VERIF_OUT": od, "VERIF_REPLAY": path, "VERIF_SHARD": "0", "VERIF_PROP": prop,
                       "VERIF_SCRATCH": os.path.join(od, "scratch"), "GORACE": "halt_on_error=1 exitcode=66"})
         for k, v in leg.get("env", {}).items():
@@ -530,6 +544,9 @@ def setup():
                             seen.add(leg["module"])
                             ok = mod.setup(wd) and ok
                         continue
+                    if leg.get("vworker") and "vworker" not in seen:
+                        seen.add("vworker")
+                        ok = build_cmd("./cmd/vworker", os.path.join(wd, "vworker"), overlay=True, tags="verif verifov") and ok
                     key = (leg["pkg"], bool(leg.get("race")), bool(leg.get("overlay")))
                     if key in seen:
                         continue
